@@ -7,7 +7,8 @@ HIST = (" Histories are part of every schedule: faulted deliveries are preceded 
         "each run executes in a fresh thread of a worker process and a violation that needs state from earlier operations is replayed as the whole run "
         "(or as everything its worker process executed before it). Where two library calls are made by two simulated caller threads (`par` op), "
         "control passes between them only at RNG draws and at std::sync primitives (std facade sim/simstd), in an order that is part of the schedule. "
-        "The thorough tier adds a Miri stage (miri/): two caller threads per scenario under Miri's seeded scheduler and data-race detector.")
+        "The thorough tier adds a Miri stage (miri/): two caller threads per scenario under Miri's seeded scheduler and data-race detector. "
+        "Buffers are handed to the library unaligned or flush against an unmapped page in part of the runs (place.policy); a try_lock on a lock another simulated caller uses may find it taken; the crates are built with overflow-checks = true.")
 
 TRUST = ("Trusted base: the reference models in sim/src/refmodel (validated before every check against the standards' "
          "published examples; exit 2 if a self-test fails), the simulator itself, and sampling of keys/IDs/messages/nonces "
